@@ -279,4 +279,21 @@ pub proof fn lemma_layout_none_stable(input: Seq<(Option<usize>, Region)>, k: in
 {
     if k < n { lemma_layout_none_stable(input, k, n - 1, init, reg); }
 }
+// ---------- C10: a type is deferred only while something it embeds by value is not resolved yet ----------
+/// field k cannot be placed yet: its type has no size yet, or placing it would run past the address space
+pub open spec fn defers_at(input: Seq<(Option<usize>, Region)>, k: int, init: (Seq<Region>, nat), reg: &TypeRegistry) -> bool {
+    match layout_fields(input, k, init, reg) {
+        Some(acc) => {
+            let start = match input[k].0 { Some(o) => if (o as nat) < acc.1 { acc.1 } else { o as nat }, None => acc.1 };
+            ty_size(input[k].1.type_ref, reg) is None || start + ty_size(input[k].1.type_ref, reg)->0 > usize::MAX
+        },
+        None => false,
+    }
+}
+pub open spec fn init_of(vr: Option<Region>, reg: &TypeRegistry) -> (Seq<Region>, nat) {
+    match vr { Some(r) => place((Seq::<Region>::empty(), 0nat), r, reg), None => (Seq::<Region>::empty(), 0nat) }
+}
+pub open spec fn layout_defers(input: Seq<(Option<usize>, Region)>, reg: &TypeRegistry) -> bool {
+    exists|k: int, vr: Option<Region>| 0 <= k < input.len() && #[trigger] defers_at(input, k, init_of(vr, reg), reg)
+}
 }
